@@ -76,6 +76,18 @@ func (d *dispatcher) ServeHTTP(w http.ResponseWriter, req *http.Request) {
 		return
 	}
 
+	// The query string is re-encoded from its parsed form below, so that the
+	// upstream sees exactly the parameters the gateway based its own decisions
+	// on (verb, dispatch policy, flow control). A query string that can not be
+	// parsed completely (a malformed escape, or a ';' which some servers treat
+	// as a separator) would lose parameters on the way: refuse it instead of
+	// forwarding something different from what the client sent.
+	query, err := url.ParseQuery(req.URL.RawQuery)
+	if err != nil {
+		d.responseError(errors.NewBadRequest(fmt.Sprintf("invalid query string: %v", err)), w, req, statusReasonInvalidQuery)
+		return
+	}
+
 	requestAttributes, err := filters.GetAuthorizerAttributes(ctx)
 	if err != nil {
 		d.responseError(errors.NewInternalError(err), w, req, statusReasonInvalidRequestContext)
@@ -124,7 +136,7 @@ func (d *dispatcher) ServeHTTP(w http.ResponseWriter, req *http.Request) {
 	location.Scheme = ep.Scheme
 	location.Host = ep.Host
 	location.Path = req.URL.Path
-	location.RawQuery = req.URL.Query().Encode()
+	location.RawQuery = query.Encode()
 
 	newReq, cancel := newRequestForProxy(location, req, extraInfo.Hostname)
 	// close this request if endpoint is stoped
